@@ -2136,6 +2136,11 @@ impl TypeChecker {
         &self.registry
     }
 
+    #[cfg(feature = "verif")]
+    pub(crate) fn verif_name_counter(&self) -> u64 {
+        self.name_generator.verif_counter()
+    }
+
     pub fn lookup_function(&self, name: &str) -> Option<(&FunctionSignature, &FunctionMetadata)> {
         self.env.get_function_info(name)
     }
